@@ -54,7 +54,8 @@ MUST_REACH = ['score delta equals the dictionary weight difference', 'other mode
               'dump then replace reproduces the model', 'tool exits successfully', 'mismatching record is rejected by the tool']
 
 TOOL_CLASSES = ',"# \n\raあ'        # CSV-hostile characters; plus "any other scalar value" (symbolic)
-WEIGHT_PATTERNS = [[0, 0, 0], [-1, 5, -32768], [2147483647, -2147483648, 7], [10, -10, 1]]
+# incl. values that a round trip through f32/f64 text or a narrower integer would not preserve (2^24+1, 2^31-1, -10^8-1)
+WEIGHT_PATTERNS = [[0, 0, 0], [-1, 5, -32768], [2147483647, -2147483648, 7], [16777217, -100000001, 33554433], [2147483583, -2147483521, 65537]]
 
 
 def jobs(tier, seed):
